@@ -6,7 +6,23 @@ from mc.engine import Harness, Result, V
 from mc.heapfp import try_fingerprint
 from mc.world import reset_globals
 
-GENS = {'a': ('g', 1), 'b': ('g', 1), 'c': ('g', 2), 'd': ('sq', 0)}
+GENS = {'a': ('g', 1), 'b': ('g', 1), 'c': ('g', 2), 'd': ('sq', 0), 'e': ('faulty', 0), 'f': ('sampled', 0)}
+
+
+class Faulty:
+    """a time-dependent value that cannot be produced at time 1"""
+    def __init__(self, time_fn=None):
+        pass
+
+    def __call__(self):
+        import param
+        t = param.Dynamic.time_fn()       # (looked up at call time: the generator object is deep-copied per instance)
+        if t == 1:
+            raise ZeroDivisionError('no value at time 1')
+        return 100 + t
+
+    def __verif_fp__(self):
+        return 'Faulty'
 
 
 class C19(Harness):
@@ -49,6 +65,8 @@ class C19(Harness):
             'b': param.Number(default=ng.UniformRandom(name='g', seed=1, time_dependent=True)),
             'c': param.Number(default=ng.UniformRandom(name='g', seed=2, time_dependent=True)),
             'd': param.Number(default=ng.SquareWave(duration=1.0, off_duration=1.0)),
+            'e': param.Number(default=Faulty(t)),
+            'f': param.Number(default=ng.TimeSampledFn(period=2.0, offset=1.0, fn=ng.SquareWave(duration=1.0, off_duration=2.0))),
         })
         return {'param': param, 't': t, 'P': P, 'i': [P(), P()]}
 
@@ -64,8 +82,9 @@ class C19(Harness):
                 ops.append(['open'])
             if model['ctx']:
                 ops.append(['close'])
+                ops.append(['close_exc'])
             return ops
-        ops = [['jump', 0], ['jump', 2], ['inc'], ['read', 0, 'a'], ['read', 1, 'a'], ['read', 0, 'b'], ['read', 0, 'c'], ['read', 1, 'd'],
+        ops = [['jump', 0], ['jump', 2], ['inc'], ['read', 0, 'a'], ['read', 1, 'a'], ['read', 0, 'b'], ['read', 0, 'c'], ['read', 1, 'd'], ['read', 0, 'e'], ['read', 0, 'f'],
                ['inspect', 0, 'a'], ['inspect', 1, 'a'], ['push', 0], ['push', 1]]
         if model['time'] > 0:
             ops.append(['dec'])
@@ -73,6 +92,7 @@ class C19(Harness):
             ops.append(['open'])
         if model['ctx']:
             ops.append(['close'])
+            ops.append(['close_exc'])
         for i in (0, 1):
             if model['saved'][i]:
                 ops.append(['pop', i])
@@ -127,9 +147,18 @@ class C19(Harness):
                 elif k == 'close':
                     t.__exit__(None, None, None)
                     model['time'] = model['ctx'].pop()
+                elif k == 'close_exc':
+                    e = KeyError('the block is left through an exception')
+                    t.__exit__(KeyError, e, None)
+                    model['time'] = model['ctx'].pop()
                 elif k == 'read':
-                    v = getattr(w['i'][op[1]], op[2])
-                    v2 = getattr(w['i'][op[1]], op[2])
+                    def rd():
+                        try:
+                            return getattr(w['i'][op[1]], op[2])
+                        except ZeroDivisionError:
+                            return 'EXC'
+                    v = rd()
+                    v2 = rd()
                     key = (GENS[op[2]], model['time'])
                     hits['read'] = 1
                     if last and v2 != v:
@@ -142,7 +171,8 @@ class C19(Harness):
                                         after=history[-2][0] if len(history) > 1 else 'start'))
                     else:
                         model['table'][key] = v
-                    model['last'][op[1]][op[2]] = v
+                    if v != 'EXC':
+                        model['last'][op[1]][op[2]] = v
                 elif k == 'inspect':
                     v = w['i'][op[1]].param.inspect_value(op[2])
                     exp = model['last'][op[1]].get(op[2])
@@ -156,7 +186,7 @@ class C19(Harness):
                     w['i'][op[1]].param._state_pop()
                     model['last'][op[1]] = model['saved'][op[1]].pop()
                     if last:
-                        for pn in ('a', 'b', 'c', 'd'):
+                        for pn in ('a', 'b', 'c', 'd', 'e', 'f'):
                             got = w['i'][op[1]].param.inspect_value(pn)
                             if got != model['last'][op[1]].get(pn):
                                 vs.append(V('pop-restores', '%s: after pop, inspect_value(%s) is %r, at the push it was %r' % (ctx, pn, got, model['last'][op[1]].get(pn)), gen=pn))
